@@ -336,7 +336,7 @@ func runPhase(p *Property, ph *Phase, tier string, seed int64, outDir string) *P
 				} else {
 					pp.Inconcl = append(pp.Inconcl, fmt.Sprintf("watchdog (%s) fired in phase %s shard %d case %d", wd, ph.Name, shard, idx))
 				}
-			case strings.Contains(string(stderr), IceFrame) && (strings.Contains(string(stderr), "fatal error:") || strings.Contains(string(stderr), "panic:") || strings.Contains(string(stderr), "unexpected fault")):
+			case crashedInIce(string(stderr)):
 				pp.Agg.Violations = append(pp.Agg.Violations, Violation{Property: p.ID, Phase: ph.Name, Idx: idx, Seed: seed, Tier: tier,
 					Sig: "process-fatal:" + fatalLine(string(stderr)), Msg: "child process died with a runtime fatal error below an ice frame: " + fatalLine(string(stderr)), Detail: tail})
 			default:
@@ -393,6 +393,32 @@ func fatalLine(stderr string) string {
 	return firstLine(stderr)
 }
 
+// crashedInIce says whether a runtime fatal error / unrecovered panic was
+// raised by a goroutine whose stack (the first one printed after the fatal
+// line) contains an ice frame.
+func crashedInIce(stderr string) bool {
+	i := -1
+	for _, marker := range []string{"fatal error:", "panic:", "unexpected fault address"} {
+		if j := strings.Index(stderr, marker); j >= 0 && (i < 0 || j < i) {
+			i = j
+		}
+	}
+	if i < 0 {
+		return false
+	}
+	rest := stderr[i:]
+	// first goroutine block
+	g := strings.Index(rest, "\ngoroutine ")
+	if g < 0 {
+		return false
+	}
+	blk := rest[g+1:]
+	if e := strings.Index(blk, "\n\n"); e >= 0 {
+		blk = blk[:e]
+	}
+	return strings.Contains(blk, IceFrame)
+}
+
 // blockedInIce looks in a SIGQUIT goroutine dump for a goroutine that waits in
 // sync.(*Mutex).Lock with an ice frame below it.
 func blockedInIce(dump string) bool {
@@ -412,7 +438,7 @@ type RaceReport struct {
 	Block string
 }
 
-var frameRe = regexp.MustCompile(`(?m)^  ([^\s(]+)\(`)
+var frameRe = regexp.MustCompile(`(?m)^  (\S+)\(\)\s*$`)
 
 // ParseRaceLogs reads every race.* file in a directory, splits it into report
 // blocks and de-duplicates by the pair of outermost ice functions.
@@ -444,8 +470,10 @@ func ParseRaceLogs(dir string) (reports []RaceReport, blocks int) {
 				o := ""
 				for _, m := range frameRe.FindAllStringSubmatch(part, -1) {
 					if strings.HasPrefix(m[1], IceFrame) {
-						o = strings.TrimPrefix(m[1], IceFrame) // keeps the last (outermost) ice frame
 						ice = true
+						if fn := strings.TrimPrefix(m[1], IceFrame); !strings.HasPrefix(fn, "Verif") {
+							o = fn // keeps the last (outermost) ice frame that is not a verif hook
+						}
 					}
 				}
 				outer = append(outer, o)
